@@ -55,11 +55,12 @@ SHARD_TIMEOUT = {"quick": 900, "thorough": 5400}
 BEHAVIOURS = [
     "exact", "exact-chunked", "exact-trailers", "surplus-garbage", "surplus-response", "unsolicited", "unsolicited-partial", "interim-100", "interim-103",
     "truncated-close", "close-mid-head", "close-after", "says-close-stays-open", "says-keepalive-closes", "no-length", "early-response", "head-only-slow",
-    "http10", "http10-keepalive", "status-204", "status-304", "expect100-final-without-100", "expect100-ok",
+    "http10", "http10-keepalive", "status-204", "status-304", "expect100-final-without-100", "expect100-ok", "unsolicited-partial-line", "surplus-response-split", "unsolicited-partial-split",
 ]
 DELAYS = [0.0, 0.2, 0.7, 1.3]  # same segment / while the caller still reads / while idle in the pool / after the next request went out
 MODES = ["read", "read-slow", "release-unread", "close", "ignore-body", "cancel", "timeout"]
-ENDPOINTS = ["http://a.test/", "http://a.test:8080/", "https://a.test/", "http://b.test/", "http://a.test/|proxy=http://p.test:3128", "http://b.test/|proxy=http://p.test:3128"]
+ENDPOINTS = ["http://a.test/", "http://a.test:8080/", "https://a.test/", "http://b.test/", "http://a.test/|proxy=http://p.test:3128", "http://b.test/|proxy=http://p.test:3128",
+             "https://a.test/|ssl=False", "https://a.test/|ssl=fpA", "https://a.test/|ssl=fpB"]
 
 
 def shards(tier, seed):
@@ -230,10 +231,25 @@ class Peer(asyncio.Protocol):
             surplus = (b"HTTP/1.1 200 OK\r\nX-Rid: surplus-%d\r\nContent-Length: 9\r\n\r\nSURPLUS-R" % k, "surplus")
         elif beh == "unsolicited":
             surplus = (b"HTTP/1.1 200 OK\r\nX-Rid: unsolicited-%d\r\nContent-Length: 11\r\n\r\nUNSOLICITED" % k, "unsolicited")
-        elif beh == "unsolicited-partial":
+        elif beh in ("unsolicited-partial", "unsolicited-partial-split"):
             surplus = (b"HTTP/1.1 200 OK\r\nX-Rid: unsolicited-%d\r\nContent-Le" % k, "unsolicited")
+        elif beh == "unsolicited-partial-line":
+            surplus = (b"HTTP/1.1 200 OK\r\nX-Rid: unsolicited-%d\r\n" % k, "unsolicited")
+        elif beh == "surplus-response-split":
+            surplus = (b"HTTP/1.1 200 OK\r\nX-Rid: surplus-%d\r\nContent-Length: 9\r\n\r\nSURPLUS-R" % k, "surplus")
         w.log.append(("resp-complete", self.tidx, k, w.loop.iteration))
-        if surplus is not None and delay <= 0:
+        if surplus is not None and beh.endswith("-split") and len(framed) > 4:
+            # the body arrives in two reads while the caller awaits it; its last part shares a segment with the surplus
+            cut = len(msg) - max(len(framed) // 2, 1)
+            self.send(msg[:cut], ("resp", k))
+
+            def second(s=surplus):
+                if self.transport is not None and not self.transport.is_closing():
+                    self.send(msg[cut:] + s[0], ("resp+" + s[1], k))
+                    w.taint(self.tidx, s[1], k)
+
+            self.later(0.05, second)
+        elif surplus is not None and delay <= 0:
             self.send(msg + surplus[0], ("resp+" + surplus[1], k))
             w.taint(self.tidx, surplus[1], k)
         else:
@@ -298,7 +314,9 @@ def run_case(case, rec, seed=0):
 
     def hook(pipe, req, srv):
         w.pipes.append(pipe)
-        key_of_pipe.append((req.url.scheme, req.url.host, req.url.port, str(req.proxy) if req.proxy else None))
+        sslv = getattr(req, "ssl", True)
+        ssld = "default" if sslv is True else ("False" if sslv is False else "fp" + chr(sslv.fingerprint[0]) if hasattr(sslv, "fingerprint") else "ctx")
+        key_of_pipe.append((req.url.scheme, req.url.host, req.url.port, str(req.proxy) if req.proxy else None, ssld))
         tidx = len(w.pipes) - 1
 
         def wh(tr, data, tidx=tidx):
@@ -312,12 +330,17 @@ def run_case(case, rec, seed=0):
 
     async def one(k, session):
         spec = reqs[k]
-        url, _, px = spec["endpoint"].partition("|proxy=")
+        ep, _, sslopt = spec["endpoint"].partition("|ssl=")
+        url, _, px = ep.partition("|proxy=")
         url = url + f"r{k}"
         mode = spec["mode"]
         kw = {}
         if px:
             kw["proxy"] = px
+        if sslopt == "False":
+            kw["ssl"] = False
+        elif sslopt.startswith("fp"):
+            kw["ssl"] = aiohttp.Fingerprint(bytes([ord(sslopt[-1])]) * 32)
         if spec["beh"] == "early-response":
             kw["data"] = b"D" * 200000
             meth = "POST"
@@ -443,11 +466,12 @@ def run_case(case, rec, seed=0):
     for k in sorted(first_write):
         ti, it = first_write[k]
         # key isolation
-        url, _, px = reqs[k]["endpoint"].partition("|proxy=")
+        ep, _, sslopt = reqs[k]["endpoint"].partition("|ssl=")
+        url, _, px = ep.partition("|proxy=")
         u = URL(url)
-        key = (u.scheme, u.host, u.port, px or None)
+        key = (u.scheme, u.host, u.port, px or None, sslopt or "default")
         kp = key_of_pipe[ti]
-        if (kp[0], kp[1], kp[2], kp[3].rstrip("/") if kp[3] else None) != (key[0], key[1], key[2], key[3].rstrip("/") if key[3] else None):
+        if (kp[0], kp[1], kp[2], kp[3].rstrip("/") if kp[3] else None, kp[4]) != (key[0], key[1], key[2], key[3].rstrip("/") if key[3] else None, key[4]):
             v.append(("key-isolation:transport-shared-across-endpoints", f"request {k} for {key} written to a transport opened for {kp}"))
         earlier = [(e, kind) for e, kind in taint_iter.get(ti, []) if e is not None and e < it and not kind.startswith("client-")]
         # a taint only counts if it stems from an earlier request on this transport
@@ -567,12 +591,23 @@ def run_shard(spec, rec):
                 v, obs = run_case(case, rec, seed=spec["seed"])
                 report(rec, case, v, obs)
             rec.sample({"history": [(r["beh"], r["delay"], r["mode"]) for r in case["reqs"]], "transports": obs["transports"], "results": obs["results"]}) if rng.random() < 0.03 else None
+        if spec["sub"] == 0:
+            # key isolation: every ordered pair/triple of endpoints that differ in exactly one key component
+            groups = [["https://a.test/", "https://a.test/|ssl=False", "https://a.test/|ssl=fpA", "https://a.test/|ssl=fpB"],
+                      ["http://a.test/", "http://a.test:8080/", "https://a.test/", "http://b.test/", "http://a.test/|proxy=http://p.test:3128", "http://b.test/|proxy=http://p.test:3128"]]
+            for g in groups:
+                for n in (2, 3):
+                    for combo in itertools.permutations(g, n):
+                        case = {"reqs": [mk("exact", endpoint=e) for e in combo] + [mk("exact", endpoint=combo[0])], "gap": 0.5}
+                        v, obs = run_case(case, rec, seed=spec["seed"])
+                        report(rec, case, v, obs)
+            rec.set_exhaustive("ordered pairs/triples of endpoints differing in one key component (scheme, port, host, proxy, TLS setting)", True)
         rec.set_exhaustive("behaviour x delay x mode in position 2 of a 4-request history" + ("" if spec["stride"] == 1 else f" (1/{spec['stride']} sample per seed)"), spec["stride"] == 1)
     else:
         rng = random.Random(spec["seed"] * 1000003 + spec["sub"] * 7919 + 6)
         for i in range(spec["n"]):
             n = rng.randint(3, 6)
-            eps = [rng.choice(ENDPOINTS[: rng.choice([1, 1, 2, 4, 6])]) for _ in range(n)]
+            eps = [rng.choice(ENDPOINTS[: rng.choice([1, 1, 2, 4, 6, 9])]) for _ in range(n)]
             reqs = []
             for j in range(n):
                 b = rng.choice(BEHAVIOURS) if rng.random() < 0.6 else "exact"
